@@ -3,12 +3,13 @@
    Every serializer model returns the bytes it hands to the destination; the
    code delivers them through some sequence of Write calls (possibly staged
    through buffers).  The theorems below hold for ANY chunking of the output
-   into Write calls, any fault position k and both fault modes (error only /
-   short write with error); "every Write result is checked and returned" is
+   into Write calls, any fault position k and the three fault modes (error only /
+   short write with error / full count with error); "every Write result is checked and returned" is
    exactly the function [run_writes], and that the Go code does so is what the
    exhaustive-in-k correspondence run establishes.  Statements only. *)
 From WP Require Import Base.Prelude Model.Cbor Model.Mice Model.CertChain Model.Sxg Model.Bundle.
 From WP Require Import Proofs.WriterFault.
+From WP Require Proofs.WriterFaultFull.
 Open Scope N_scope.
 
 Theorem c19_fault_any_chunking :
@@ -22,6 +23,19 @@ Theorem c19_fault_any_chunking :
     /\ (lenN out <= k -> ok = true /\ d_acc d = out).
 Proof. exact run_writes_fault. Qed.
 Print Assumptions c19_fault_any_chunking.
+
+(* third fault mode: the Write that crosses position k takes ALL its bytes and still reports an
+   error (a full count together with an error) *)
+Theorem c19_fault_full_count :
+  forall (cs : list bytes) (k : N) (m : fmode) (d : dest) (n : N) (ok : bool),
+    run_writes_full cs (dest0 k m) 0 = (d, n, ok) ->
+    let out := List.concat cs in
+    (exists rest, out = d_acc d ++ rest)
+    /\ n = lenN (d_acc d)
+    /\ (k < lenN out -> ok = false /\ k < lenN (d_acc d))
+    /\ (lenN out <= k -> ok = true /\ d_acc d = out).
+Proof. exact WriterFaultFull.run_writes_full_fault. Qed.
+Print Assumptions c19_fault_full_count.
 
 Theorem c19_no_fault :
   forall cs a m cnt,
